@@ -430,7 +430,8 @@ theorem mutateValue_safe (X : Ctx) (hX : NoClassDnc X) (hM : MakeSafe n₀ W X) 
     · exact hr3.1 hs
     · exact h.writable
   refine h4.bind (fun v4 hv4 => ?_)
-  exact (mvAttrTransforms_safe X hX hM p v4 r3.2 hv4).true
+  exact (mvAttrTransforms_safe X hX hM p v4 (r3.2 && v4 == r3.1)
+    (fun hs => hv4 (by simp only [Bool.and_eq_true] at hs; exact hs.1))).true
 
 theorem prepareAttrValue_safe (X : Ctx) (hX : NoClassDnc X) (hM : MakeSafe n₀ W X) (d : AttrDecl)
     (v : Ref) (attrs : List (Nat × Ref)) :
